@@ -56,6 +56,8 @@ def setup_dab(cx):
     cw_get = cx.uf('cw_get', [Sub, WOpt], TReal)           # atom.get(weight, 1)
     mw_get = cx.uf('mw_get', [PNode, AKey], TReal)         # node.get('mapping_weights', {}).get(key, 1)
     wmean = cx.uf('wmean', [TSeq(Vec), TSeq(TReal)], Vec)  # numpy.average(positions, axis=0, weights=weights)
+    cx.uf('PSEQ', [PNode], TSeq(Vec))
+    cx.uf('WSEQ', [PNode], TSeq(TReal))
     cx.uf('pix_ix', [PNode, TInt], TInt)
     cx.uf('pix_rk', [PNode, TInt], TInt)
     cx.uf('pix_len', [PNode], TInt)
@@ -166,41 +168,56 @@ SPEC_DAB = {
     'npos': "lambda n: pix_len(n)",
     # the k-th positioned constituent of particle n: (key, atom)
     'atom_k': "lambda n, k: subs(n)[pix_ix(n, k)]",
-    # what the particle's position must be, given its recorded rows P and weights W
-    'placed': "lambda n, P, W: POS[n] == (NANVEC if abs(SW(W, len(W))) < 1e-7 else wmean(P, W))",
+    # the rows P and weights W of particle n: one per positioned constituent, in order, the k-th weight being the mapping
+    # weight of the k-th positioned atom times its centre weight
     'rows_ok': "lambda n, P, W: len(P) == npos(n) and len(W) == npos(n) and forall(lambda k: implies(0 <= k and k < npos(n), "
                "P[k] == pos_of(atom_k(n, k)[1]) and W[k] == mw_get(n, atom_k(n, k)[0]) * cw_get(atom_k(n, k)[1], weight)))",
+    # what the particle's position must be
+    'target': "lambda n: NANVEC if abs(SW(WSEQ(n), npos(n))) < 1e-7 else wmean(PSEQ(n), WSEQ(n))",
     # the positioned constituents, in order, are exactly the atoms with coordinates
     'only_positioned': "lambda n: forall(lambda k: implies(0 <= k and k < npos(n), 0 <= pix_ix(n, k) and pix_ix(n, k) < len(subs(n)) and "
                        "pos_of(subs(n)[pix_ix(n, k)][1]) is not None)) and "
                        "forall(lambda i: implies(0 <= i and i < len(subs(n)) and pos_of(subs(n)[i][1]) is not None, "
                        "0 <= pix_rk(n, i) and pix_rk(n, i) < npos(n) and pix_ix(n, pix_rk(n, i)) == i))",
 }
-DONE = ("forall(lambda i: implies(0 <= i and i < {I} and has_graph(pnodes[i]), pnodes[i] in g_P and pnodes[i] in g_W and "
-        "pnodes[i] in POS and rows_ok(pnodes[i], g_P[pnodes[i]], g_W[pnodes[i]]) and "
-        "placed(pnodes[i], g_P[pnodes[i]], g_W[pnodes[i]]) and only_positioned(pnodes[i])))")
+# definitions of the specification functions (consistent: such objects exist for every input)
+#   pix_*: for every particle n, pix_ix(n, .) is the increasing enumeration of the positions of n's atoms that have coordinates;
+#   PSEQ(n), WSEQ(n): the rows and weights of particle n as described by rows_ok
+# and the only thing assumed about numpy.average beyond its name: it depends on the listed rows and weights only
+DEFS = [
+    "forall(lambda n: only_positioned(n) and npos(n) >= 0 and npos(n) <= len(subs(n)), PNode)",
+    "forall(lambda n: rows_ok(n, PSEQ(n), WSEQ(n)), PNode)",
+    "forall(lambda P, Q, W, V: implies(len(P) == len(Q) and len(W) == len(V) and len(P) == len(W) and "
+    "   forall(lambda k: implies(0 <= k and k < len(P), P[k] == Q[k] and W[k] == V[k])), wmean(P, W) == wmean(Q, V)), TVS, TVS, TRS, TRS)",
+]
+L_sw_ext = Lemma('L_sw_ext', [('w', RS), ('v', RS), ('i', TInt)], spec_recs=RECS[:1], prop='C09', file=F,
+                 requires=["i <= len(w) and i <= len(v)", "forall(lambda k: implies(0 <= k and k < len(w) and k < len(v), w[k] == v[k]))"],
+                 ensures=["SW(w, i) == SW(v, i)"], induction='i')
+LEMMAS.append(L_sw_ext)
+PLACED = "forall(lambda i: implies(0 <= i and i < {I} and has_graph(pnodes[i]), pnodes[i] in POS and POS[pnodes[i]] == target(pnodes[i])))"
 FRAME = ("forall(lambda n: implies(forall(lambda i: implies(0 <= i and i < {I}, not (pnodes[i] == n and has_graph(n)))), "
          "(n in POS) == (n in old(POS)) and implies(n in POS, POS[n] == old(POS)[n])), PNode)")
 average_loop = FunctionContract(
     F, 'do_average_bead', 'C09', short='do_average_bead[averaging]', setup=setup_dab, spec_defs=SPEC_DAB, spec_recs=RECS[:1],
-    spec_env=dict(PNode=PNode, Sub=Sub, AKey=AKey, Vec=Vec),
+    spec_env=dict(PNode=PNode, Sub=Sub, AKey=AKey, Vec=Vec, TVS=TSeq(Vec), TRS=RS), lemmas=[L_sw_ext],
     region=dict(start="for node in molecule.nodes.values():", nth=2, end="return molecule"),
     filters={"subnode.get('position') is not None": ('pix', 'node')},
-    locals=dict(g_P=TMap(PNode, TSeq(Vec)), g_W=TMap(PNode, TSeq(TReal))),
     requires=["forall(lambda i, j: implies(0 <= i and i < j and j < len(pnodes), pnodes[i] != pnodes[j]))"],
-    ghost_at={'entry': "g_P = {}\ng_W = {}"},
+    axioms=lambda cx, env: [cx.eng._b(cx.eng.spec_truth(d, env)) for d in DEFS],
     ensures=[
         # every particle that represents atoms sits at the weighted mean (numpy.average) of exactly its positioned atoms,
         # the k-th weight being the mapping weight of the k-th positioned atom times its centre weight; its position is
         # undefined (NaN) exactly when those weights sum to zero (below 1e-7 in magnitude)
-        DONE.format(I='len(pnodes)'),
+        PLACED.format(I='len(pnodes)'),
         # nothing else is moved
         FRAME.format(I='len(pnodes)'),
     ],
     modifies=['POS'],
-    loops={'L1': LoopSpec(inv=[DONE.format(I='_i'), FRAME.format(I='_i')], modifies=['POS', 'g_P', 'g_W'],
-                          locals=dict(g_P=TMap(PNode, TSeq(Vec)), g_W=TMap(PNode, TSeq(TReal))),
-                          ghost_end="if 'graph' in node:\n    g_P[pnodes[_i]] = positions\n    g_W[pnodes[_i]] = weights")},
+    loops={'L1': LoopSpec(inv=[PLACED.format(I='_i'), FRAME.format(I='_i')], modifies=['POS'],
+                          ghost_end="if 'graph' in node:\n"
+                                    "    prove(rows_ok(pnodes[_i], positions, weights), 'rows-of-this-particle')\n"
+                                    "    use_lemma('L_sw_ext', weights, WSEQ(pnodes[_i]), len(weights))\n"
+                                    "    prove(POS[pnodes[_i]] == target(pnodes[_i]), 'position-of-this-particle')")},
     canary=[("if subnode.get('position') is not None\n            ])\n            weights", "])\n            weights"),
             ("if abs(sum(weights)) < 1e-7:", "if sum(weights) < 1e-7:"),
             ("node.get('mapping_weights', {}).get(subnode_key, 1) * subnode.get(weight, 1)", "node.get('mapping_weights', {}).get(subnode_key, 1)")],
